@@ -352,6 +352,12 @@ impl DiscretEndpoint {
 
         let len = event_receiv.read_u32().await?;
         let len: usize = len.try_into().unwrap();
+        if len > max_buffer_size {
+            return Err(Error::Io(std::io::Error::new(
+                std::io::ErrorKind::InvalidData,
+                "connection info frame is too large",
+            )));
+        }
         let mut buf = vec![0; len];
 
         event_receiv.read_exact(&mut buf[0..len]).await?;
